@@ -76,10 +76,30 @@ func c09Gen(g *G) {
 	// server as its caller encoded it. P1: all goroutines of the client on one processor.
 	g.Emit("c09.run o,o,o P1;ywq:3000:1;g0;s400;g1;s400;g2;s300;u;w3;a2;a0;a1", "encoded-request-waits-for-write-lock")
 	g.Emit("c09.run o,vl,b ywq:3000:1;g0;s400;g1;s400;u;g2;w3;c(a1,a0);a2", "encoded-request-waits-for-write-lock")
+	// a request in flight is rejected with bad_server_salt while the session store fails at exactly that save (disk
+	// full, directory gone), other callers pending: the rejected call is repeated and returns its own result, and so
+	// does everybody else — on the in-memory and on the file store, back to back, in a container, twice in a row
+	g.Emit("c09.run o,o,o g0+1+2;w3;fs:1;r1/2000;w4;a0;a1;a2", "store-fails-at-rotation")
+	g.Emit("c09.run vl,o,b fs:2;g0+1+2;w3;c(r0/2001,r2/2001);w5;a1;a0z;a2", "store-fails-at-rotation")
+	g.Emit("c09.run o,vo SF;g0+1;w2;fs:1;r0/2002;w3;r1/2003;w4;c(a1,a0)", "store-fails-at-rotation")
+	g.Emit("c09.run o,o,e,b g0+1+2+3;w4;fs:3;r3/2004;w5;r3/2005;w6;n2006;a2;a3;r0/2007;w7;a1;a0", "store-fails-at-rotation")
+	// the server's msg_ids anywhere in the unsigned 64-bit range: bit 63 set (a date after 2038, or a server clock
+	// that far ahead), across 2^63, just below 2^64, near zero (a clock far behind), 1 and 3 modulo 4
+	g.Emit("c09.run o,o,vl I9223372036854775801;g0+1+2;w3;a1;a0;a2z", "server-msgid-range")
+	g.Emit("c09.run o,b I18446744073709547619;g0+1;w2;c(a1,a0)", "server-msgid-range")
+	g.Emit("c09.run o,o,o I13835058055282163713;g0;w1;a0;j;I5;g1;w2;a1z;j;I9223372036854775807;g2;w3;c(p,a2)", "server-msgid-range")
+	g.Emit("c09.run vo,e K400000000;g0+1;w2;a1;a0", "server-msgid-range")
+	// calls that send other requests than ping (x_rpcsrv.go "request types"): each returns the result addressed to it
+	g.Emit("c09.run o@sr1,b@rr2,vl@pd,vo@fs,e@ds,o@pq,o@dh,b@sc,o@da g0+1+2+3+4+5+6+7+8;w9;a8;a3z;c(a1,a0);a2;a7;c(a6z,a5,a4)", "request-types")
 	n := g.N(60, 1500)
 	for i := 0; i < n; i++ {
 		k := 1 + r.Intn(g.N(8, 16))
 		kinds := c09Kinds(r, k, pool)
+		if r.Intn(5) == 0 {
+			for j := range kinds {
+				kinds[j] += "@" + []string{"sr1", "rr1", "pd", "pq", "dh", "sc", "da", "fs", "ds", "sr4", "rr3", "pi"}[r.Intn(12)]
+			}
+		}
 		if r.Intn(12) == 0 {
 			kinds[r.Intn(k)] = fmt.Sprintf("ob%d", 1<<20-300+r.Intn(600))
 		}
@@ -127,11 +147,19 @@ func c09Gen(g *G) {
 			all[j] = j
 		}
 		plan := []string{"g" + rsJoinInts("", all, "+"), fmt.Sprintf("w%d", k)}
+		if r.Intn(6) == 0 {
+			// the server's msg_ids anywhere in the 64-bit range (1 or 3 modulo 4)
+			plan = append([]string{fmt.Sprintf("I%d", (r.U64()|1)%(1<<64-4096))}, plan...)
+		}
 		seen := k // request frames the server has seen so far (the w<n> steps wait for that many)
 		if r.Intn(4) == 0 {
 			// some requests are rejected once (new salt) before they are answered
 			sub := rsPerm(r, k)[:1+r.Intn(k)]
 			salt := 2000 + r.Intn(1000)
+			if r.Intn(2) == 0 {
+				// … and the session store fails at the saves these rejections cause (some or all of them)
+				plan = append(plan, fmt.Sprintf("fs:%d", 1+r.Intn(len(sub))))
+			}
 			for _, c := range sub {
 				plan = append(plan, fmt.Sprintf("r%d/%d", c, salt))
 			}
